@@ -554,7 +554,7 @@ async def run_program(spec: dict, rec: Rec, *, runtime=None, retry_builder=None,
     if ctx_factory is not None:
         handler = wf.run(ctx=ctx_factory(wf))
     else:
-        handler = wf.run(start_event=rec.mk("GStart", "start"))
+        handler = wf.run(start_event=rec.mk("GStart", "start"), run_id="run-0")
     rec.handler = handler
     consumer = asyncio.create_task(consume_stream(rec, handler))
     stim = asyncio.create_task(apply_ext(rec, handler, spec.get("ext", [])))
